@@ -11,8 +11,10 @@ property oracle   : the same random context built over the oracle and over the p
                     the model's reference denotation), gradients at unambiguous points, feature sets, interval soundness
                     on the oracle tree's own samples (NaN values need the flag), nested specialisation (pushed tapes and
                     oracle contexts) bit-identical to the unspecialised answer
-not covered here  : meshes of oracle trees (the property's mesh clause is exercised by C03/C04's renders when those are
-                    claimed); user oracles that break the Oracle interface contract
+meshes            : closed solids wrapped in an oracle (optionally under a remap) rendered by the three meshers next to the
+                    plain solid: every audit the plain mesh passes (closed, manifold, winding, vertices near the surface)
+                    the oracle's mesh must pass too
+not covered here  : user oracles that break the Oracle interface contract
 """
 import os
 import sys
@@ -253,6 +255,66 @@ def run(replay=None):
         if len(samples) < 3:
             samples.append({"program": p.lines[-12:], "flattened": hf, "comparison": oc[0]})
 
+    # ---- meshes: "meshes rendered from either satisfy the same guarantees" ----
+    # a closed solid wrapped in an oracle (optionally under a translation remap) and the plain solid, rendered with the
+    # same settings by the three meshers: whenever the plain mesh passes an audit (closed, no repeated vertex, indices,
+    # edge-manifold for simplex / hybrid, winding number inside / outside, vertices near the surface), so must the
+    # oracle's.  (Simplex meshes are rendered without cell collapsing: its holes are a recorded C03 finding.)
+    import meshgen
+    mbox = " ".join(f2h(v) for v in meshgen.BOX3)
+    mprogs = []
+    for k in range(10 if quick else 150):
+        p = meshgen.closed_solid(ck.rng, f"mo{k}", rotate=ck.rng.random() < 0.5, sharp=ck.rng.random() < 0.5)
+        plain = p.root
+        orc = p.emit(f"oracle {plain}", "tree")
+        if ck.rng.random() < 0.5:
+            dx = p.emit(f"bin OP_ADD 0 {p.emit('const ' + f2h(ck.rng.uniform(-0.15, 0.15)), 'const')}", "tree")
+            plain = p.emit(f"remap {plain} {dx} 1 2", "tree")
+            orc = p.emit(f"remap {orc} {dx} 1 2", "tree")
+        p.qs = []
+        for alg in range(3):
+            workers = ck.rng.choice([1, 2, 4])
+            mf = ck.rng.choice([0.3, 0.4]) if alg == 0 else ck.rng.choice([0.5, 0.6])
+            maxerr = -1.0 if alg == 1 else 1e-8
+            sd = ck.rng.randrange(1 << 30)
+            a = p.ncmd + 1
+            p.emit(f"mesh {plain} {alg} {workers} {f2h(mf)} {mbox} {f2h(maxerr)} {sd}")
+            b = p.ncmd + 1
+            p.emit(f"mesh {orc} {alg} {workers} {f2h(mf)} {mbox} {f2h(maxerr)} {sd}")
+            p.qs.append((alg, a, b))
+        mprogs.append(p)
+    mout, mskip = common.run_cases_sharded(exe_h, [p.text() for p in mprogs], shards=8, timeout=1800, single_timeout=600)
+    for t in mskip:
+        ck.violation("mesh:hang", "a render over an oracle tree did not terminate within the watchdog", {"program": t[:3000]})
+    MH = parse_out(mout)
+    stats["mesh_pairs"] = 0
+    for p in mprogs:
+        if any(t.split()[1] == p.cid for t in mskip):
+            continue
+        for alg, a, b in p.qs:
+            la = [l for l in MH.get((p.cid, a), []) if l.startswith("MA ")]
+            lb = [l for l in MH.get((p.cid, b), []) if l.startswith("MA ")]
+            if not la or la[0] == "MA null":
+                continue                                   # the plain render itself failed: C03 / C04's business
+            if not lb or lb[0] == "MA null":
+                ck.violation("mesh:none", f"the oracle tree renders no mesh where the plain tree does: {MH.get((p.cid, b), [])[:1]}",
+                             {"program": p.text(), "command": p.lines[b - 1]})
+                continue
+            fa = dict(x.split("=", 1) for x in la[0].split(" info=")[0].split()[1:])
+            fb = dict(x.split("=", 1) for x in lb[0].split(" info=")[0].split()[1:])
+            stats["mesh_pairs"] += 1
+            name = ["dc", "simplex", "hybrid"][alg]
+            keys = ["unbalanced", "degenerate", "bad_index", "unreferenced", "wind_bad"] + (["nonmanifold"] if alg else [])
+            for key in keys:
+                if int(fa[key]) == 0 and int(fb[key]) != 0:
+                    ck.violation(f"mesh:{key}:{name}", f"the mesh of the oracle tree fails an audit ({key}) that the mesh of the plain tree passes",
+                                 {"program": p.text(), "plain": la[0], "oracle": lb[0]})
+            if int(fa["tris"]) > 0 and not (0.5 * int(fa["tris"]) <= int(fb["tris"]) <= 2 * int(fa["tris"])):
+                ck.violation(f"mesh:size:{name}", "the mesh of the oracle tree has a grossly different size from the plain tree's",
+                             {"program": p.text(), "plain": la[0], "oracle": lb[0]})
+            if float(fb["maxfield"]) > max(2.0 * float(fa["maxfield"]), 1.0):
+                ck.violation(f"mesh:offsurface:{name}", "a vertex of the oracle tree's mesh is much further from the surface than any of the plain tree's",
+                             {"program": p.text(), "plain": la[0], "oracle": lb[0]})
     # the recorded finding
     ko = (H.get(("kf", kf.q["o"])) or [""])[0]
     ke = (H.get(("kf", kf.q["e"])) or [""])[0]
@@ -292,6 +354,5 @@ def run(replay=None):
         "extraction: ExtrOcamlBasic only; ocaml/driver.ml (osem = the wrapped expression's value through its own pipeline)",
         "user oracles are assumed to meet the Oracle interface contract (interval soundness, NaN convention, context protocol)",
     ]
-    ck.assumptions += ["meshes over oracle trees are not rendered by this check",
-                       "free variables in coordinate trees above an oracle: known finding oracle:var-in-remap"]
+    ck.assumptions += ["free variables in coordinate trees above an oracle: known finding oracle:var-in-remap"]
     ck.finish()
